@@ -217,6 +217,29 @@ func b01(b bool) string {
 	return "0"
 }
 
+// funcByValue: does a value of the type hold a func value directly (field, array element, the type itself)?  llgo represents
+// a func value by two words (closure), so Size_/Align_ of such types in the EMITTED descriptors legitimately differ from gc's.
+func funcByValue(t types.Type, depth int) bool {
+	if depth > 50 {
+		return false
+	}
+	switch t := types.Unalias(t).(type) {
+	case *types.Signature:
+		return true
+	case *types.Named:
+		return funcByValue(t.Underlying(), depth+1)
+	case *types.Array:
+		return funcByValue(t.Elem(), depth+1)
+	case *types.Struct:
+		for i := 0; i < t.NumFields(); i++ {
+			if funcByValue(t.Field(i).Type(), depth+1) {
+				return true
+			}
+		}
+	}
+	return false
+}
+
 // abiUncommonMethodSet
 func uncommonMethodSet(t types.Type) (ms []meth, ok bool) {
 	switch t := types.Unalias(t).(type) {
@@ -401,8 +424,9 @@ func main() {
 		if unc {
 			pkgpath = uncommonPkgPath(t, jb.Compiling)
 		}
-		fmt.Fprintf(w, "desc %d %s %s %s %d %s %s %s %d M: %s | F: %s | IM: %s | %s | %s\n", i, hx(sym), hx(str), hx(full), uint(b.Kind(t)), flags,
-			b01(unc), hx(pkgpath), x, strings.Join(mparts, " "), strings.Join(fparts, " "), strings.Join(iparts, " "), s.term(t), s.methodsTerm(ms))
+		layout := fmt.Sprintf("%s,%d,%d,%d,%s", b01(b.EqualName(t) != ""), b.Align(t), b.FieldAlign(t), b.Size(t), b01(funcByValue(t, 0)))
+		fmt.Fprintf(w, "desc %d %s %s %s %d %s %s %s %d %s M: %s | F: %s | IM: %s | %s | %s\n", i, hx(sym), hx(str), hx(full), uint(b.Kind(t)), flags,
+			b01(unc), hx(pkgpath), x, layout, strings.Join(mparts, " "), strings.Join(fparts, " "), strings.Join(iparts, " "), s.term(t), s.methodsTerm(ms))
 	}
 	var paths []string
 	for p := range col.pkgs {
